@@ -37,6 +37,7 @@ J sched_json(Rng &r, const std::string &tier, int n_tasks_hint, bool want_fn_yie
 	if (want_fn_yield && r.chance(500)) fy = (int) r.range(5, tier == "thorough" ? 120 : 60);
 	s.set("fn_yield", fy);
 	s.set("glib_yield", true);
+	s.set("libc_yield", true);
 	s.set("starve_task", (int) r.range(1, std::max(1, n_tasks_hint + 3)));
 	s.set("starve_from_ms", (int) r.range(0, 500));
 	s.set("starve_for_ms", (int) r.range(5, 400));
@@ -59,6 +60,7 @@ static sim::SchedParams parse_sched(const J &plan) {
 	p.sticky_permille = (int) s.geti("sticky", 900);
 	p.fn_yield_permille = (int) s.geti("fn_yield", 0);
 	p.glib_yield = s.getb("glib_yield", false);
+	p.libc_yield = s.getb("libc_yield", false);
 	p.starve_task = (int) s.geti("starve_task", -1);
 	p.starve_from_us = (uint64_t) s.geti("starve_from_ms", 0) * 1000;
 	p.starve_for_us = (uint64_t) s.geti("starve_for_ms", 0) * 1000;
